@@ -1,5 +1,5 @@
 (* C14 - observers see exactly the control-channel transcript, in order. *)
-From LibFtp Require Import Bytes Decimal Reply Endpoint DataConn Client Client_Proofs Ascii DataConn_Proofs Login_Proofs Transfer_Proofs.
+From LibFtp Require Import Bytes Decimal Reply Endpoint Ascii DataConn DataConn_Proofs Client Client_Proofs Login_Proofs Transfer_Proofs.
 Local Open Scope N_scope.
 
 (* For every program (hence every API call), every world: what the program adds to the trace decomposes into
@@ -42,12 +42,12 @@ Print Assumptions C14_add_remove.
    the preliminary reply, then the listing text exactly as delivered, then the completion reply - in this order *)
 Theorem C14_listing_transcript : forall w path names r1 r2 rest x1 x2 x3 ip port,
   insync w (r1 :: r2 :: rest) -> w_data w = None ->
-  c_mode (w_cfg w) = Passive -> c_tls (w_cfg w) = false -> c_type (w_cfg w) = TBinary ->
+  c_mode (w_cfg w) = Passive -> c_tls (w_cfg w) = false ->
   arg_ok path ->
   simple_reaction r1 x1 -> is_negative x1 = false -> passive_target (w_cfg w) x1 ip port ->
   dp_reachable (r_data r1) = true ->
   accepts_transfer r2 x2 x3 -> dp_end (r_data r2) = DEof ->
-  exists w', step w (AList path names) = (OReturn (RvList [x1; x2; x3] (concat (dp_segs (r_data r2)))), w') /\
+  exists w', step w (AList path names) = (OReturn (RvList [x1; x2; x3] (delivered (c_type (w_cfg w)) (concat (dp_segs (r_data r2))))), w') /\
     insync w' rest /\ w_data w' = None /\ w_cfg w' = w_cfg w /\
     wire_events (skipn (length (w_trace w)) (w_trace w')) =
       [WLine (setup_line (w_cfg w)); WReply x1; WLine (line_of (if names then NLST_ else LIST_) path); WReply x2; WReply x3] /\
@@ -56,6 +56,6 @@ Theorem C14_listing_transcript : forall w path names r1 r2 rest x1 x2 x3 ip port
     obs_events (skipn (length (w_trace w)) (w_trace w')) =
       told (w_obs w) (ORequest (setup_line (w_cfg w))) ++ told (w_obs w) (OReply x1) ++
       told (w_obs w) (ORequest (line_of (if names then NLST_ else LIST_) path)) ++ told (w_obs w) (OReply x2) ++
-      told (w_obs w) (OFileList (concat (dp_segs (r_data r2)))) ++ told (w_obs w) (OReply x3).
+      told (w_obs w) (OFileList (delivered (c_type (w_cfg w)) (concat (dp_segs (r_data r2))))) ++ told (w_obs w) (OReply x3).
 Proof. exact list_passive_complete. Qed.
 Print Assumptions C14_listing_transcript.
